@@ -2,9 +2,11 @@
    lists the set flags.
 
    has x f = (x & f == f), add x f = x | f, remove x f = x &^ f  on Z (two's
-   complement, unbounded width); C14_ops_stay_in_range shows that on values of a
-   Go integer kind the results are values of that kind again, so the fixed-width
-   Go operators compute the same numbers.
+   complement, unbounded width).  That Go's fixed-width & | &^ compute these
+   numbers is an assumption about Go (C14_ops_stay_in_range only shows that the Z
+   results are values of the kind again); the run ties it to the code on
+   [0, 2^(top+2)) x flags exhaustively and on operands of the whole kind, negative
+   and sign-bit ones included (o_bitpairs).
    The String() theorems quantify over every package of the grammar with ANY
    number of flags and ANY bit positions (no bound on width): proofs go through
    Z.testbit / Z.bits_inj', by induction over the ascending value table.
@@ -63,6 +65,24 @@ Proof.
   exact (conj (add_in_range k x f Hx Hf) (conj (remove_in_range k x f Hx Hf) (land_in_range k x f Hx Hf))).
 Qed.
 Print Assumptions C14_ops_stay_in_range.
+
+(* K_bit_map (open, golden-locked): as generated on this tree, EVERY -bit output
+   references the undefined table _<t>_map and does not compile.  All String()
+   theorems below are therefore about the output with the one documented repair
+   `_<t>_map[` -> `_<t>_string_map[` (compiles ... false), which does compile. *)
+Theorem C14_refuted_K_bit_map : forall p T fl g,
+  generate p T fl = Some g -> f_bit fl = true -> compiles (const_env p) g true = false.
+Proof.
+  intros p T fl g Hgen Hbit. destruct (generate_inv p T fl g Hgen) as [k [_ [Hg _]]]. subst g.
+  unfold compiles. cbn [g_flags make_str]. rewrite Hbit. cbn. apply andb_false_r.
+Qed.
+Print Assumptions C14_refuted_K_bit_map.
+
+Theorem C14_repaired_output_compiles : forall p T fl g,
+  enum_guard p T = true -> generate p T fl = Some g ->
+  compiles (const_env p) g false = true.
+Proof. exact P_fresh_output_compiles. Qed.
+Print Assumptions C14_repaired_output_compiles.
 
 (* String() of a declared value is its (trimmed, first declared) name, also under -bit *)
 Theorem C14_string_of_declared : forall p T fl g n v,
